@@ -182,6 +182,7 @@ pub struct LoginOutcome {
     pub error: Option<ReadErr>,
 }
 
+#[derive(Clone, Debug)]
 pub struct LoginParams {
     pub intent: i32,
     pub host: String,
@@ -196,11 +197,19 @@ pub struct LoginParams {
     pub secret: [u8; 16],
     /// what the client answers to the session cookie request (None: it has no such cookie)
     pub session_cookie: Option<Vec<u8>>,
+    /// protocol version announced in the handshake
+    pub proto: i32,
+    /// the client does not wait for Login Success: Encryption Response, Login Acknowledged and Client Information
+    /// go out in one write (the last two already encrypted)
+    pub pipelined: bool,
+    pub locale: String,
+    /// the verify token the client returns instead of the one it was issued (e.g. another connection's)
+    pub foreign_token: Option<Vec<u8>>,
 }
 
 impl Default for LoginParams {
     fn default() -> Self {
-        Self { intent: 2, host: "play.example".into(), port: 25565, name: "NetPlayer".into(), uuid: 0x069a79f4_44e9_4726_a5be_fca90e38aaf5, auth_cookie: None, wait: Duration::from_secs(2), auth_cookie_delay: Duration::ZERO, secret: SECRET16, session_cookie: None }
+        Self { intent: 2, host: "play.example".into(), port: 25565, name: "NetPlayer".into(), uuid: 0x069a79f4_44e9_4726_a5be_fca90e38aaf5, auth_cookie: None, wait: Duration::from_secs(2), auth_cookie_delay: Duration::ZERO, secret: SECRET16, session_cookie: None, proto: 769, pipelined: false, locale: "en_us".into(), foreign_token: None }
     }
 }
 
@@ -220,7 +229,8 @@ impl McClient {
             };
         }
         if from < Stage::HandshakeSent && until >= Stage::HandshakeSent {
-            tri!(self.handshake(&p.host, p.port, p.intent).await.map_err(io));
+            self.phase = if p.intent == 1 { Phase::Status } else { Phase::Login };
+            tri!(self.send(&codec::sb_handshake(p.proto, &p.host, p.port, p.intent)).await.map_err(io));
             out.stage = Stage::HandshakeSent;
         }
         if out.stage < Stage::LoginStartSent && until >= Stage::LoginStartSent {
@@ -267,9 +277,17 @@ impl McClient {
             let key = RsaPublicKey::from_public_key_der(&key).expect("server key");
             let mut rng = UnwrapErr(rand::rngs::SysRng);
             let s = key.encrypt(&mut rng, Pkcs1v15Encrypt, &p.secret).expect("rsa");
-            let t = key.encrypt(&mut rng, Pkcs1v15Encrypt, &token).expect("rsa");
-            tri!(self.send(&codec::sb_encryption_response(&s, &t)).await.map_err(io));
-            self.enable_encryption(&p.secret);
+            let t = key.encrypt(&mut rng, Pkcs1v15Encrypt, p.foreign_token.as_deref().unwrap_or(&token)).expect("rsa");
+            if p.pipelined {
+                let mut burst = codec::sb_encryption_response(&s, &t);
+                self.enable_encryption(&p.secret);
+                let tail = [codec::sb_login_ack(), codec::sb_client_information(&p.locale)].concat();
+                burst.extend_from_slice(&self.enc.as_mut().expect("enc").encrypt(&tail));
+                tri!(self.send_raw(&burst).await.map_err(io));
+            } else {
+                tri!(self.send(&codec::sb_encryption_response(&s, &t)).await.map_err(io));
+                self.enable_encryption(&p.secret);
+            }
             let pk = tri!(self.read_packet(p.wait).await);
             let ok = matches!(pk, Pkt::LoginSuccess { .. });
             out.packets.push(pk);
@@ -280,8 +298,10 @@ impl McClient {
             out.stage = Stage::LoginSuccessReceived;
         }
         if out.stage < Stage::InConfiguration && until >= Stage::InConfiguration {
-            tri!(self.send(&codec::sb_login_ack()).await.map_err(io));
-            tri!(self.send(&codec::sb_client_information("en_us")).await.map_err(io));
+            if !p.pipelined {
+                tri!(self.send(&codec::sb_login_ack()).await.map_err(io));
+                tri!(self.send(&codec::sb_client_information(&p.locale)).await.map_err(io));
+            }
             out.stage = Stage::InConfiguration;
         }
         if out.stage < Stage::Transferred && until >= Stage::Transferred {
@@ -452,11 +472,13 @@ pub struct ListenerCfg {
     pub limiter: Option<(u64, usize)>, // (duration seconds, limit)
     pub timeout: Duration,
     pub auth_secret: Option<Vec<u8>>,
+    pub max_packet_length: Option<i32>,
+    pub expiry: Option<u64>,
 }
 
 impl Default for ListenerCfg {
     fn default() -> Self {
-        Self { proxy: None, limiter: None, timeout: Duration::from_secs(30), auth_secret: None }
+        Self { proxy: None, limiter: None, timeout: Duration::from_secs(30), auth_secret: None, max_packet_length: None, expiry: None }
     }
 }
 
@@ -552,7 +574,14 @@ pub struct Running {
 
 /// Starts the real `Listener` on a free loopback port inside the current `LocalSet`.
 pub async fn start_listener(cfg: &ListenerCfg, adapters: NetAdapters) -> Running {
-    let a = Arc::new(adapters);
+    start_listener_with(cfg, Arc::new(adapters)).await
+}
+
+/// the real `Listener` on a loopback port, with any adapter set
+pub async fn start_listener_with<A>(cfg: &ListenerCfg, a: Arc<A>) -> Running
+where
+    A: StatusAdapter + DiscoveryAdapter + FilterAdapter + StrategyAdapter + AuthenticationAdapter + 'static,
+{
     for _attempt in 0..8 {
         let port = free_port();
         let addr: SocketAddr = format!("127.0.0.1:{port}").parse().unwrap();
@@ -563,6 +592,12 @@ pub async fn start_listener(cfg: &ListenerCfg, adapters: NetAdapters) -> Running
             .with_proxy_protocol(cfg.proxy.map(|(v1, v2)| ParseConfig { include_tlvs: false, allow_v1: v1, allow_v2: v2 }))
             .with_connection_timeout(cfg.timeout)
             .with_auth_secret(cfg.auth_secret.clone());
+        if let Some(m) = cfg.max_packet_length {
+            listener = listener.with_max_packet_length(m);
+        }
+        if let Some(e) = cfg.expiry {
+            listener = listener.with_auth_cookie_expiry(e);
+        }
         let stop2 = stop.clone();
         let done = tokio::task::spawn_local(async move { listener.listen(addr, stop2).await.map_err(|e| e.to_string()) });
         // wait until it accepts. The probe comes from 127.0.0.99 so that it never touches the rate-limit
